@@ -643,28 +643,48 @@ def rule_h(ctx, ix):
         raise AnalysisError('_coupled_axes: expected one closure loop')
     lp = loops[0]
     carried = {}
-    for st in lp.body:
+    for st in ast.walk(lp):
         if isinstance(st, ast.Assign) and isinstance(st.targets[0], ast.Tuple) and isinstance(st.value, ast.Tuple):
             for t, v in zip(st.targets[0].elts, st.value.elts):
-                if isinstance(t, ast.Name) and isinstance(v, ast.Name):
+                if isinstance(t, ast.Name) and isinstance(v, ast.Name) and t.id != v.id:
                     carried[t.id] = v.id
-        elif isinstance(st, ast.Assign) and isinstance(st.targets[0], ast.Name) and isinstance(st.value, ast.Name):
+        elif isinstance(st, ast.Assign) and isinstance(st.targets[0], ast.Name) and isinstance(st.value, ast.Name) \
+                and st.value.id.endswith(st.targets[0].id) and st.value.id != st.targets[0].id:
             carried[st.targets[0].id] = st.value.id
     if len(carried) < 2:
         raise AnalysisError('_coupled_axes: the loop-carried masks are no longer recognised (%s)' % carried)
-    exits = [x for x in ast.walk(lp) if isinstance(x, (ast.Return, ast.Break))]
-    if not exits and isinstance(lp.test, ast.Constant):
+    # boolean flags of the loop, written out (`converged = A and B` ... `while not converged`)
+    flags = {}
+    for st in ast.walk(lp):
+        if isinstance(st, ast.Assign) and len(st.targets) == 1 and isinstance(st.targets[0], ast.Name) and st.targets[0].id not in carried \
+                and isinstance(st.value, (ast.BoolOp, ast.Call, ast.Compare, ast.UnaryOp)):
+            flags.setdefault(st.targets[0].id, []).append(st.value)
+
+    def subst(fm, depth=0):
+        if fm[0] == 'atom' and fm[1] in flags and len(flags[fm[1]]) == 1 and depth < 4:
+            return subst(cond.formula(flags[fm[1]][0]), depth + 1)
+        if fm[0] in ('and', 'or'):
+            return (fm[0],) + tuple(subst(x, depth) for x in fm[1:])
+        if fm[0] == 'not':
+            return cond.Not(subst(fm[1], depth))
+        return fm
+    exits = [(x, subst(cond.path_condition(f.node, x, expand=False) or ('const', True))) for x in ast.walk(lp) if isinstance(x, (ast.Return, ast.Break))]
+    if not (isinstance(lp.test, ast.Constant) and lp.test.value):
+        exits.append((lp, subst(cond.Not(cond.formula(lp.test)))))
+    if not exits:
         raise AnalysisError('_coupled_axes: the loop has no exit')
-    for ex in exits:
-        pc = cond.path_condition(f.node, ex, expand=False) or ('const', True)
+    for ex, pc in exits:
         txt = ' '.join(sorted(cond.atoms(pc)))
+        what = norm(ex)[:40] if not isinstance(ex, ast.While) else 'while %s' % unparse(ex.test)
         for old_, new_ in sorted(carried.items()):
-            # the atom must mention both the carried mask and its new value
-            ok = any(_mentions(a, old_) and _mentions(a, new_) for a in cond.atoms(pc))
-            ctx.ob(R, '%s exit `%s` / %s' % (f.construct, norm(ex)[:40], old_), 'the exit compares %s with %s' % (new_, old_), ok,
-                   detail='_coupled_axes leaves its closure loop under `%s`, which does not compare `%s` with `%s`: the loop can stop in a round '
-                          'in which that mask still grew, so axes coupled through a chain (a triangular matrix) are left out of '
-                          'dependent_axes and the coordinate links ignore an axis they depend on' % (txt[:160], new_, old_), where=where(f, ex))
+            # the exit decides the comparison of this mask with its successor (whichever way the comparison is written)
+            cmp_atoms = [a for a in cond.atoms(pc) if _mentions(a, old_) and _mentions(a, new_)]
+            ok = any(cond.implies(pc, cond.T(a)) or cond.implies(pc, cond.Not(cond.T(a))) for a in cmp_atoms)
+            ctx.ob(R, '%s exit `%s` / %s' % (f.construct, what, old_), 'the exit compares %s with %s' % (new_, old_), ok,
+                   detail='_coupled_axes leaves its closure loop under `%s`, which does not settle the comparison of `%s` with `%s`: the loop can '
+                          'stop in a round in which that mask still grew, so axes coupled through a chain (a triangular matrix) are left out '
+                          'of dependent_axes and the coordinate links ignore an axis they depend on' % (txt[:160], new_, old_),
+                   where=where(f, ex))
 
 
 def _mentions(atom, name):
